@@ -18,6 +18,10 @@ pub enum TokA {
     Num,
     #[token("é")]
     E,
+    #[token("中")]
+    Zh,
+    #[regex("[😀-😏]")]
+    Smile,
     #[regex(" +", logos::skip)]
     Ws,
 }
